@@ -328,7 +328,12 @@ def run(rep, tier, seed):
     ctxs = [lambda e: f'<svg><var a="{{a}}" b="{{b}}"/><rect id="s" wh="2" data-v="{{{{{e}}}}}"/></svg>',
             lambda e: f'<svg><var a="{{a}}" b="{{b}}"/><var z="{{{{{e}}}}}"/><rect id="s" wh="2" data-v="$z"/></svg>',
             lambda e: f'<svg><g a="{{a}}" b="{{b}}"><rect id="s" wh="2" data-v="{{{{1 + 1, {e}}}}}"/></g></svg>',
-            lambda e: f'<svg><var a="{{a}}" b="{{b}}"/><rect wh="9" text="{{{{{e}}}}}"/></svg>']
+            lambda e: f'<svg><var a="{{a}}" b="{{b}}"/><rect wh="9" text="{{{{{e}}}}}"/></svg>',
+            # geometry, comment, loop control, if test
+            lambda e: f'<svg><var a="{{a}}" b="{{b}}"/><rect id="s" x="{{{{{e}}}}}" y="0" width="2" height="2"/></svg>',
+            lambda e: f'<svg><var a="{{a}}" b="{{b}}"/><rect id="s" wh="2" _="{{{{{e}}}}}"/></svg>',
+            lambda e: f'<svg><var a="{{a}}" b="{{b}}"/><loop count="2" loop-var="i" start="{{{{{e}}}}}" step="{{{{{e}}}}}"><rect class="it" wh="1" data-v="$i"/></loop></svg>',
+            lambda e: f'<svg><var a="{{a}}" b="{{b}}"/><if test="{{{{{e}}}}}"><rect id="s" wh="2" data-v="1"/></if><rect id="z" xy="5 5" wh="1"/></svg>']
     scal = [c for c in cases if scalar(c["exp"])]
     dsel = rnd.sample(scal, min(len(scal), 4000 if big else 800))
     dcases = []
@@ -346,9 +351,39 @@ def run(rep, tier, seed):
             continue
         root = vlib.parse_xml(rr["out"])
         got = None
+        if d["ctx"] == 7:
+            # rendered exactly when the value is non-zero
+            present = any(e.attrs.get("id") == "s" for e in vlib.elements(root))
+            if present != (c["exp"][0] != 0):
+                rep.violation("expr:doc-context-7:value", {"xml": d["xml"], "expected": c["exp"], "got": f"body rendered: {present}"})
+            else:
+                rep.traces += 1
+            continue
+        if d["ctx"] == 6:
+            vals = [e.attrs.get("data-v") for e in vlib.elements(root) if "it" in e.classes()]
+            want = [c["exp"][0], f32(c["exp"][0] + c["exp"][0])]
+            okl = len(vals) == 2 and all(v is not None and close(v, [w]) is not False for v, w in zip(vals, want))
+            if not okl:
+                rep.violation("expr:doc-context-6:value", {"xml": d["xml"], "expected": want, "got": vals})
+            else:
+                rep.traces += 1
+            continue
+        if d["ctx"] == 5:
+            def comments(n):
+                for ch in n.children:
+                    if ch.kind == "comment":
+                        yield ch.text
+                    elif ch.kind == "el":
+                        yield from comments(ch)
+            cm = [t.strip() for t in comments(root) if t.strip() and not t.strip().startswith(("Generated", "Config"))]
+            got = cm[0] if cm else None
         for e in vlib.elements(root):
+            if d["ctx"] == 5:
+                break
             if d["ctx"] == 3 and e.name == "text":
                 got = e.text_content()
+            elif d["ctx"] == 4 and e.attrs.get("id") == "s":
+                got = e.attrs.get("x", "0")
             elif e.attrs.get("id") == "s":
                 got = e.attrs.get("data-v")
         if d["ctx"] == 2 and got:
